@@ -107,11 +107,11 @@ class Distogram:  # pragma: no cover
 
         # we need to overwrite any range values as we've approximated the dataset
         if self.min is None:
-            self.min = values.min()
-            self.max = values.max()
+            self.min = _caster(values.min())
+            self.max = _caster(values.max())
         else:
-            self.min = min(self.min, values.min())
-            self.max = max(self.max, values.max())
+            self.min = _caster(min(self.min, values.min()))
+            self.max = _caster(max(self.max, values.max()))
 
     def count(self):
         return sum(f for _, f in self.bins)
@@ -311,10 +311,13 @@ def update(h: Distogram, value: float, count: int = 1) -> Distogram:  # pragma: 
             h.diffs.insert(index, 0)
             _update_diffs(h, index)
 
+    # the bounds are kept in the histogram's own float type, like the bin centres: a narrower
+    # NumPy scalar (float32 from a bulk load) would make later comparisons with Python floats
+    # happen in that narrower type
     if (h.min is None) or (h.min > value):
-        h.min = value
+        h.min = _caster(value)
     if (h.max is None) or (h.max < value):
-        h.max = value
+        h.max = _caster(value)
 
     h = _trim(h)
     return h
